@@ -68,6 +68,7 @@ SPEC = {
             "Dispatch); PushOperators; RemoveOperator; make an operator old (expire / timeout through "
             "SetOperatorStatusReachTime); the region disappears; in every third sequence also foreign events (peer "
             "appears/disappears, leader moves, range changes) and operators created with another epoch. "
+            "every fourth sequence is a faithful walk: builder-made operators for all three feature levels (joint on / off / unsupported, the last giving RemovePeer+AddLearner on one store) with targets that change roles in place are executed step by step, with a heartbeat after every execution while the new peer is still pending and another after it caught up, nothing else touching the region - no operator may be cancelled there. "
             "non-trivial = commands were sent, an operator finished or was cancelled, heartbeats and executions "
             "happened; distinct = distinct op sequence",
     "model_text": "PdModel/Model/OpCtl.lean: operator_controller.go (AddOperator, AddWaitingOperator, "
